@@ -1,5 +1,6 @@
 import Mustache.Driver.EntityIR
 import Mustache.Driver.World
+import Mustache.Driver.WorldContract
 import Mustache.Driver.Iter
 import Mustache.Driver.Versions
 import Mustache.Driver.Systems
@@ -14,6 +15,7 @@ def main (args : List String) : IO UInt32 :=
   match args with
   | "entity" :: r   => Mustache.Driver.EntityIR.main r
   | "world" :: r    => Mustache.Driver.World.main r
+  | "worldcontract" :: r => Mustache.Driver.WorldContract.main r
   | "iter" :: r     => Mustache.Driver.Iter.main r
   | "versions" :: r => Mustache.Driver.Versions.main r
   | "systems" :: r  => Mustache.Driver.Systems.main r
